@@ -845,8 +845,19 @@ func SparseMetadataIDs(rt *rapid.T, m *am.Module) {
 	}
 	perm := rapid.Permutation(m.MDs).Draw(rt, "mdperm")
 	id := 0
-	for _, n := range perm {
+	// one module in six jumps to the top of the ID range on the way: LLVM takes metadata IDs up to 2^32-1
+	jumpAt := -1
+	if rapid.IntRange(0, 5).Draw(rt, "mdhuge") == 0 {
+		jumpAt = rapid.IntRange(0, len(perm)-1).Draw(rt, "mdhugeat")
+	}
+	for i, n := range perm {
 		id += rapid.IntRange(0, 3).Draw(rt, "mdgap")
+		if i == jumpAt {
+			base := []int{1<<31 - 2, 1 << 31, 1<<32 - 1 - 4*len(perm)}[rapid.IntRange(0, 2).Draw(rt, "mdhugebase")]
+			if base > id {
+				id = base
+			}
+		}
 		n.ID = id
 		id++
 	}
